@@ -367,6 +367,11 @@ impl Gate {
         };
         for con in &mut conns.connections {
             if let Some(con) = con.take() {
+                // Queued packets hold a connection (and thus a strong reference)
+                // to the channel they are queued in.
+                if let Some(ref channel) = con.channel {
+                    channel.dissolve_queue();
+                }
                 con.endpoint.dissolve_paths();
             }
         }
